@@ -32,7 +32,8 @@ def gen(tier, rng):
         rw = rng.random() < 0.4
         def kind():
             return "R" if rw or rng.random() < 0.3 else "M"
-        leaves = [b.leaf(kind()) for _ in range(rng.randint(2, 5))]
+        # one scenario in eight is large (8-12 shared leaves)
+        leaves = [b.leaf(kind()) for _ in range(rng.randint(8, 12) if rng.random() < 0.125 else rng.randint(2, 5))]
         cands = list(leaves)
         reach = {c: {c} for c in leaves}
         for k in ("boxed", "ref", "retry"):
